@@ -1447,9 +1447,13 @@ class Converter:
 
     def _translate_nested_function_def(self, fn: ast.FunctionDef) -> None:
         """Translate a nested function definition."""
+        # The nested function's return annotation must not replace the return types
+        # declared by the enclosing function.
+        enclosing_returntype = self.returntype
         self._enter_scope(fn.name, fn)
         self._translate_function_def_common(fn)
         function_ir = self._exit_scope()
+        self.returntype = enclosing_returntype
         outer_scope_vars = sorted(self.analyzer.outer_scope_variables(fn))
         function_ir.outer_scope_variables = [
             (var, self._lookup(var, self._source_of(fn))) for var in outer_scope_vars
